@@ -413,7 +413,9 @@ func closeEnough(got, want, scale float64) bool {
 	if math.IsNaN(got) || math.IsNaN(want) || math.IsInf(got, 0) || math.IsInf(want, 0) {
 		return false
 	}
-	tol := 1e-9 * math.Max(math.Max(math.Abs(want), scale), 1e-300)
+	// relative 1e-9 of the operand magnitude, with an absolute floor far below the 1/4 lattice of
+	// the generated values (summation order may differ between layouts and from the reference)
+	tol := math.Max(1e-9*math.Max(math.Abs(want), scale), 1e-9)
 	return math.Abs(got-want) <= tol
 }
 
